@@ -52,25 +52,28 @@ func TestVerifC05(t *testing.T) {
 	rng := rand.New(rand.NewSource(int64(vEnvInt("VERIF_SEED", 1))))
 	budget := vEnvInt("VERIF_RUNS", 60)
 	full := os.Getenv("VERIF_FULL") != ""
-	mconds := []string{"dead_mysql", "dead_host", "fsro", "crashrec", "ok", "unreachable_from_manager"}
+	mconds := []string{"dead_mysql", "dead_host", "fsro", "crashrec", "ok", "unreachable_from_manager", "dead_mysync"}
 	repls := []string{"both_ok", "one_stopped", "both_stopped"}
 	maints := []string{"none", "none", "light", "full"}
 	lasts := []string{"none", "auto_recent", "auto_old", "manual_recent"}
-	hists := []string{"steady", "flap", "manager_change"}
+	hists := []string{"steady", "flap", "manager_change", "flap_susp"}
 	type base struct {
 		mcond, repl, maint, last, hist string
 		failover, resetup, preswitch, listdead, semisync bool
 		delay int
+		cascade bool // a cascade replica c1 (streaming from h2) is registered as well
 	}
 	var bases []base
 	// all single-gate-closed cells around the all-open cell, then the random product
-	open := base{"dead_mysql", "both_ok", "none", "none", "steady", true, false, false, false, true, 0}
+	open := base{"dead_mysql", "both_ok", "none", "none", "steady", true, false, false, false, true, 0, false}
 	bases = append(bases, open)
 	for _, mc := range mconds {
 		b := open
 		b.mcond = mc
 		bases = append(bases, b)
 		b.resetup = true
+		bases = append(bases, b)
+		b.resetup, b.cascade = false, true
 		bases = append(bases, b)
 	}
 	for _, m := range maints {
@@ -101,8 +104,8 @@ func TestVerifC05(t *testing.T) {
 		nrand = 60000
 	}
 	for k := 0; k < nrand; k++ {
-		bases = append(bases, base{mconds[rng.Intn(len(mconds))], repls[rng.Intn(3)], maints[rng.Intn(4)], lasts[rng.Intn(4)], hists[rng.Intn(3)],
-			rng.Intn(5) != 0, rng.Intn(2) == 0, rng.Intn(6) == 0, rng.Intn(4) == 0, rng.Intn(4) != 0, []int{0, 5}[rng.Intn(2)]})
+		bases = append(bases, base{mconds[rng.Intn(len(mconds))], repls[rng.Intn(3)], maints[rng.Intn(4)], lasts[rng.Intn(4)], hists[rng.Intn(len(hists))],
+			rng.Intn(5) != 0, rng.Intn(2) == 0, rng.Intn(6) == 0, rng.Intn(4) == 0, rng.Intn(4) != 0, []int{0, 5}[rng.Intn(2)], rng.Intn(3) == 0})
 	}
 	ownStart := time.Now()
 	if p, err := process.NewProcess(int32(os.Getpid())); err == nil {
@@ -118,9 +121,15 @@ func TestVerifC05(t *testing.T) {
 		if runs >= budget && !full {
 			break
 		}
-		id := fmt.Sprintf("c05-%s-%s-%s-%s-%s-fo%v-ru%v-ps%v-ld%v-ss%v-d%d", b.mcond, b.repl, b.maint, b.last, b.hist, b.failover, b.resetup, b.preswitch, b.listdead, b.semisync, b.delay)
+		id := fmt.Sprintf("c05-%s-%s-%s-%s-%s-fo%v-ru%v-ps%v-ld%v-ss%v-d%d-c%v", b.mcond, b.repl, b.maint, b.last, b.hist, b.failover, b.resetup, b.preswitch, b.listdead, b.semisync, b.delay, b.cascade)
 		hosts := []string{"h1", "h2", "h3"}
-		sc := vScenario{ID: id, Hosts: hosts, Master: "h1", Manager: "h2", W: 1, Base: 3, Req: reqSpec{Kind: "none"}, Policy: "flow", Rounds: 13,
+		all := hosts
+		var casc map[string]string
+		if b.cascade {
+			all = []string{"h1", "h2", "h3", "c1"}
+			casc = map[string]string{"c1": "h2"}
+		}
+		sc := vScenario{ID: id, Hosts: all, Cascade: casc, Master: "h1", Manager: "h2", W: 1, Base: 3, Req: reqSpec{Kind: "none"}, Policy: "flow", Rounds: 13,
 			Cfg: map[string]any{"failover": b.failover, "failover_delay": b.delay, "failover_cooldown": 3600, "resetup_crashed": b.resetup,
 				"semi_sync": b.semisync, "inactivation_delay": 60}}
 		var rows []gateRow
@@ -134,6 +143,10 @@ func TestVerifC05(t *testing.T) {
 			susp      bool
 			calls     int
 			filed     bool
+			pending   bool   // a switch request was pending when the activation started
+			mh        string // recorded master at the start of the activation
+			rec       string // its health record as mysync itself read it in this activation ("" = missing)
+			read      bool
 		}{}
 		masterBroken := func(s *vSim) {
 			switch b.mcond {
@@ -141,6 +154,9 @@ func TestVerifC05(t *testing.T) {
 				s.W.Crash("h1")
 			case "dead_host":
 				s.W.Crash("h1")
+				s.kill("h1")
+			case "dead_mysync":
+				// only the master's mysync is gone: its health record disappears, the server keeps serving
 				s.kill("h1")
 			case "fsro":
 				os.WriteFile(filepath.Join(s.insts["h1"].dir, "fs_ro"), []byte("true"), 0o644)
@@ -159,6 +175,8 @@ func TestVerifC05(t *testing.T) {
 				s.W.Unlock()
 			case "fsro":
 				os.WriteFile(filepath.Join(s.insts["h1"].dir, "fs_ro"), []byte("false"), 0o644)
+			case "dead_mysync":
+				s.startInstance("h1")
 			case "unreachable_from_manager":
 				for _, m := range []string{"h2", "h3"} {
 					s.W.Unblock(m, "h1")
@@ -234,10 +252,15 @@ func TestVerifC05(t *testing.T) {
 						}
 						s.activeNow = s.zkActive()
 						s.lastSwitchNow, _ = s.zkGet(pathLastSwitch)
-						s.h1Health, _ = s.zkGet(pathHealthPrefix + "/h1")
+						// the clauses speak about the RECORDED master of this activation (it is h1 until a failover succeeds)
+						mh := s.zkMaster()
+						if mh == "" || s.W.Hosts[mh] == nil {
+							mh = "h1"
+						}
+						s.h1Health, _ = s.zkGet(pathHealthPrefix + "/" + mh)
 						bad := true
 						fsro := false
-						if d, ok := s.zkGet(pathHealthPrefix + "/h1"); ok {
+						if d, ok := s.zkGet(pathHealthPrefix + "/" + mh); ok {
 							var ns struct {
 								PingOk bool `json:"ping_ok"`
 								FsRO   bool `json:"is_file_system_readonly"`
@@ -255,8 +278,8 @@ func TestVerifC05(t *testing.T) {
 							o.firstBad = -1
 						}
 						s.W.Lock()
-						h1 := s.W.Hosts["h1"]
-						reachable := h1.Up && h1.Net == "ok" && !s.W.IsBlocked(ev.By, "h1")
+						h1 := s.W.Hosts[mh]
+						reachable := h1.Up && h1.Net == "ok" && !s.W.IsBlocked(ev.By, mh)
 						s.W.Unlock()
 						curAct[ev.By] = &struct {
 							t0    int64
@@ -264,9 +287,53 @@ func TestVerifC05(t *testing.T) {
 							susp  bool
 							calls int
 							filed bool
-						}{t0: s.now(), bad: bad, susp: !bad && !reachable}
+							pending bool
+							mh    string
+							rec   string
+							read  bool
+						}{t0: s.now(), bad: bad, susp: !bad && !reachable, mh: mh, rec: s.h1Health}
+						if _, pending := s.zkGet(pathCurrentSwitch); pending {
+							// an iteration that finds a pending request executes it before any failover / repair decision:
+							// the suspicious-master clause does not speak about it
+							curAct[ev.By].pending = true
+						}
+					case ev.K == "zk" && ev.Op == "GetData" && curAct[ev.By] != nil && !curAct[ev.By].read &&
+						ev.At == pathHealthPrefix+"/"+curAct[ev.By].mh:
+						// the evaluation is mysync's own read of the record, which may come seconds after the start of the
+						// activation (state collection with timeouts comes first): judge by what it saw
+						a := curAct[ev.By]
+						a.read = true
+						a.rec = ""
+						nbad := true
+						if ev.Res == "ok" {
+							a.rec = ev.Val
+							var ns struct {
+								PingOk bool `json:"ping_ok"`
+								FsRO   bool `json:"is_file_system_readonly"`
+							}
+							json.Unmarshal([]byte(ev.Val), &ns)
+							nbad = !ns.PingOk || ns.FsRO
+						}
+						reach := false
+						if s.W.TryLock() {
+							x := s.W.Hosts[a.mh]
+							reach = x.Up && x.Net == "ok" && !s.W.IsBlocked(ev.By, a.mh)
+							s.W.Unlock()
+						} else {
+							reach = !a.susp // keep the earlier judgement of reachability
+						}
+						who := fmt.Sprintf("%s#%d", ev.By, s.insts[ev.By].inc)
+						if o := obs[who]; o != nil {
+							if nbad && o.firstBad < 0 {
+								o.firstBad = a.t0
+							} else if !nbad {
+								o.firstBad = -1
+							}
+						}
+						a.bad = nbad
+						a.susp = !nbad && !reach
 					case ev.K == "app" && ev.Op == "Exit" && ev.Arg == "Manager":
-						if a := curAct[ev.By]; a != nil && a.susp && b.maint == "none" && !b.preswitch {
+						if a := curAct[ev.By]; a != nil && a.susp && b.maint == "none" && !b.preswitch && !a.pending {
 							rows = append(rows, gateRow{Kind: "susp", Scn: id, By: ev.By, ClusterWideCalls: a.calls, Filed: a.filed, Maintenance: b.maint})
 						}
 						delete(curAct, ev.By)
@@ -310,9 +377,13 @@ func TestVerifC05(t *testing.T) {
 								CR bool `json:"crash_recovery"`
 							} `json:"daemon_state"`
 						}
-						hasRec := s.h1Health != ""
+						rec := s.h1Health
+						if a != nil {
+							rec = a.rec
+						}
+						hasRec := rec != ""
 						if hasRec {
-							json.Unmarshal([]byte(s.h1Health), &hr)
+							json.Unmarshal([]byte(rec), &hr)
 						}
 						row.FsReadonly = hasRec && hr.FsRO
 						row.CrashRecovered = hasRec && hr.DS != nil && hr.DS.CR
@@ -363,7 +434,11 @@ func TestVerifC05(t *testing.T) {
 				}
 				s.activeNow = s.zkActive()
 				s.lastSwitchNow, _ = s.zkGet(pathLastSwitch)
-				s.h1Health, _ = s.zkGet(pathHealthPrefix + "/h1")
+				if mh := s.zkMaster(); mh != "" {
+					s.h1Health, _ = s.zkGet(pathHealthPrefix + "/" + mh)
+				} else {
+					s.h1Health, _ = s.zkGet(pathHealthPrefix + "/h1")
+				}
 				switch b.hist {
 				case "steady":
 					if round == 1 {
@@ -377,6 +452,24 @@ func TestVerifC05(t *testing.T) {
 						masterFixed(s)
 					}
 					if round == 5 {
+						masterBroken(s)
+					}
+				case "flap_susp":
+					// bad record, then a GOOD record while the managers cannot reach the master themselves
+					// (suspicious master), then bad again: the delay must be counted from the second run
+					if round == 1 {
+						masterBroken(s)
+					}
+					if round == 3 {
+						masterFixed(s)
+						for _, m := range []string{"h2", "h3"} {
+							s.W.Block(m, "h1")
+						}
+					}
+					if round == 5 {
+						for _, m := range []string{"h2", "h3"} {
+							s.W.Unblock(m, "h1")
+						}
 						masterBroken(s)
 					}
 				case "manager_change":
